@@ -89,14 +89,14 @@ def processElement (clean collapse : Bool) (literals : List String) : XN → Lis
       let attrs : Dict := attrib.foldl (fun d kv => if kv.1.toList.contains '{' then d else d.set kv.1 kv.2) []
       let extras : Dict := attrib.foldl (fun d kv => if kv.1.toList.contains '{' then d.set (formatExtras kv.1 nsmap) kv.2 else d) []
       some (.mk "" ln content tl pfx attrs extras nsmap (processKids clean collapse literals nsmap kids))
-/-- children: comments are skipped; a child whose map equals the parent's shares the parent's dict object
-    (`add_child`), which is only visible here as the parent's key order -/
+/-- children: comments are skipped; a child whose map lists the same bindings in the same order as the parent's shares the
+    parent's dict object (`add_child`), which is invisible at the value level; otherwise it keeps its own map and order -/
 def processKids (clean collapse : Bool) (literals : List String) (parentNs : Dict) : List XN → List Tree
   | [] => []
   | k :: ks =>
       match processElement clean collapse literals k ks with
       | some (.mk i n c tl p a e ns cs) =>
-          (.mk i n c tl p a e (if dictEq parentNs ns then parentNs else ns) cs) :: processKids clean collapse literals parentNs ks
+          (.mk i n c tl p a e ns cs) :: processKids clean collapse literals parentNs ks
       | none => processKids clean collapse literals parentNs ks
 end
 
